@@ -1080,7 +1080,9 @@ def check_C09(case: Dict[str, Any]) -> List[Dict[str, Any]]:
 # C09 generators
 # ----------------------------------------------------------------------------------------------------
 
-_WORDS = ["Id.", "at", "3;", "id.", "5", "See", "Foo", "v.", "Bar,", "1", "U.S.", "100", "(1999).", "a", "bb", "supra,"]
+_WORDS = ["Id.", "at", "3;", "id.", "5", "See", "Foo", "v.", "Bar,", "1", "U.S.", "100", "(1999).", "a", "bb", "supra,",
+          # characters whose case mappings change length (casefold / upper / lower): offsets must stay in the coordinates of the given texts
+          "Wei\u00df", "Gro\u00df,", "\ufb01led", "\u0130d.", "\u01f0"]
 _STYLE = ["i", "em", "b"]
 _OTHER_TAGS = ["p", "div", "span", "a"]
 
@@ -1200,9 +1202,14 @@ def gen_case_C09(rng: random.Random) -> Dict[str, Any]:
     mode = rng.choice(MODES)
     width = rng.choice([1, 1, 2])
     shared = rng.random() < 0.3
+    marker_style = rng.choice([0, 0, 1])
     anns = []
     for k, (s, e) in enumerate(spans):
         b, a = sentinel_pair(0 if shared else k, width)
+        if marker_style == 1:
+            # realistic markers: regex-special and template-special characters around the private-use sentinel (which keeps them unique)
+            b = f'<a class="cite" href="/c/{k}-us-1.html?ref=x#p[{k}]">' + b
+            a = a + "</a><!-- end cite (\\g<0> $1 \\1) -->"
         if rng.random() < 0.05:
             b = ""
         elif rng.random() < 0.05:
@@ -1460,7 +1467,7 @@ def run_C10(col: Collector, seed: int, n: int, focus: Optional[str], hints: Any)
         col.bound_parts.append(f"clause C: ALL plain strings over {{a,b}} of length 1..4 x one insertion ('<i>' or newline) at every position x every non-empty span x both engines ({small_done} cases)")
         while nc < n * 50 and time.time() < t_c:
             ln = rng.randint(1, 24)
-            plain = "".join(rng.choice("abc. ") for _ in range(ln))
+            plain = "".join(rng.choice("abc. abc. \u00df\ufb01\u0130") for _ in range(ln))      # incl. characters whose case mappings change length
             inserts = [[rng.randint(0, ln), rng.choice(foreign)] for _ in range(rng.choice([0, 1, 1, 2, 3, 5]))]
             cuts = sorted(rng.sample(range(ln + 1), min(ln + 1, rng.choice([2, 2, 3, 4, 6]))))
             spans = []
@@ -1477,7 +1484,8 @@ def run_C10(col: Collector, seed: int, n: int, focus: Optional[str], hints: Any)
         # diff would be taken), citations on some lines wrapped in foreign tags
         nl = 0
         pool = ["Accord 2 U.S. 2.", "The rule was first announced in 1 U.S. 1 and later extended.", "The dissent relied instead on 3 U.S. 3.",
-                "See also 4 U.S. 4; 5 U.S. 5.", "It was so.", "Accord 2 U.S. 2.", "Id. at 7."]
+                "See also 4 U.S. 4; 5 U.S. 5.", "It was so.", "Accord 2 U.S. 2.", "Id. at 7.",
+                "In Wei\u00df v. Gro\u00df, 12 U.S. 345 (1999), the rule was set.", "The brief was \ufb01led late. See 6 U.S. 6."]
         cite_re = re.compile(r"\d+ U\.S\. \d+")
         t_l = time.time() + 0.1 * budget
         while nl < n * 5 and time.time() < t_l + 0.1 * budget:
